@@ -468,6 +468,7 @@ def get_next_assignment(
             if mode == "min" and (
                 candidate_cost >= upper_bound or ass_cost + elt_cost >= upper_bound
             ):
+                found = None
                 break  # Try next value in domain.
             else:
                 found = candidate, candidate_cost  # Check for next elt in path.
